@@ -445,7 +445,11 @@ def c16_check(tier, replay=None):
         "rule": "one evaluation = one execution of a seeded multi-thread scenario (2-4 threads x 2-5 operations over shared "
                 "compiled expressions, a shared custom runtime and shared documents; in 'race' scenarios the default runtime "
                 "is first used inside the threads) under Miri with one scheduler seed and preemption rate; Miri must report "
-                "no data race, deadlock, UB or panic and the result must equal the sequential native run. distinct = "
+                "no data race, deadlock, UB or panic and the result must equal the sequential native run. Role classes: 'owner' "
+                "(the main thread, which compiled the shared expressions, searches them next to the spawned threads), 'rounds' "
+                "(long-lived threads; the main thread drops and re-compiles generations of shared expressions between "
+                "rendezvous), 'badpool' (lockstep compiles of the same texts, half of them failing to parse), 'bigproj' "
+                "(thousands of elements; Miri reports 8 CPUs). distinct = "
                 "distinct (scenario, completion order of all operations) pairs observed; non-trivial = the same (a different "
                 "completion order is a different interleaving).",
         "samples": samples,
